@@ -352,7 +352,7 @@ func init() {
 		Assumptions: []string{"the simulated pipe behaves like an OS pipe: data written before exit stays readable until the read end is closed by Wait()", "supervisor-inserted lines (restart separator, error texts) carry no id and are ignored"},
 		Gen: func(seed int64, tier string) []fw.Case {
 			var cs []fw.Case
-			for i := 0; i < tierN(tier, 900, 15000); i++ {
+			for i := 0; i < tierN(tier, 5000, 80000); i++ {
 				s := fw.SubSeed(seed, i)
 				cs = append(cs, fw.MkCase("C11", "scripted", s, genOutSpec(fw.Rand(s), i)))
 			}
